@@ -13,12 +13,23 @@ hash terms). Everything below is for every trie height `H`, every number of batc
 size: induction over the height and over the list of batches. A batch is what `Trie.Update`
 requires: keys of `H` bits, strictly ascending, non-empty (`WF H b ∧ b ≠ []`).
 
-Not carried by a theorem (exercised on the real code by the harness only): the 4-level batch
-layout and its (de)serialisation, Commit / a fresh instance opened at a stored root / older roots
-staying readable, the goroutines of `updateParallel`.
+"After a commit the same answers are obtained from a fresh instance opened on the stored data at
+that root, and every previously committed root remains readable with its own contents": the storage
+layer is modelled in `Aergo.Model.TrieStore` (the 4-level batch the code builds for a subtree, the
+key it is stored under, `Trie.get` through `loadChildren`/`loadBatch`/`parseBatch` on a store) and
+the clause is carried by `get_from_store`, `store_monotone`, `old_roots_live`,
+`history_roots_stay_readable` below — for every height that is a multiple of 4, an arbitrary hash
+function, under the explicit hypothesis that it is injective (and overlap-free) on the finite list
+of byte strings actually hashed for the committed trees.
+
+Not carried by a theorem (exercised on the real code by the harness only): which subset of the
+batches an `Update` records for the next commit (`updatedNodes`; the model commits all batches of
+the tree — the harness reads the real store under the model's keys), the node cache, the goroutines
+of `updateParallel`.
 -/
 import Aergo.Lemmas.TrieCanon
 import Aergo.Lemmas.TrieBatch
+import Aergo.Lemmas.TrieStoreHash
 
 namespace Aergo.Props.C10
 open Aergo.Trie
@@ -129,6 +140,149 @@ feeds every value the real trie stores to both codecs.) -/
 theorem batch_store_roundtrip (b : Aergo.TrieBatch.Batch) (w : Aergo.TrieBatch.WF b) :
     Aergo.TrieBatch.parse (Aergo.TrieBatch.serialize b) = some (Aergo.TrieBatch.norm b) :=
   Aergo.TrieBatch.parse_serialize b w
+
+/-! ### Storage layer: commit, fresh instance at a stored root, older roots
+
+`TrieStore.batchOf c h p t` is the batch the Go code builds for the subtree `t` rooted at a batch boundary,
+`pairsOf c n [] t` the (hash of batch root ↦ serialised batch) pairs of a whole tree of height `4 * n`,
+`commitS` writes pairs into a store, `storeAfter c n ts` is the store after committing the trees `ts` in
+turn into an empty DB, `getRoot c σ H root key` is `NewTrie(root, hash, σ).Get(key)`: the Go `get`
+through `loadChildren` / `loadBatch` / `parseBatch` (`Res.err` = error return or run-time panic).
+`Committed n t`: canonical at height `4 * n`, values of 32 bytes (what the trie holds).
+`HashOK`: 32-byte digests, 32-byte injective key encoding. `HashGoodOn H L` (= `¬ BrokenOn H L L`):
+`H` is injective on the finite list `L` and no `DefaultLeaf ++ H x = H y ++ DefaultLeaf` for x, y ∈ L;
+`L` is always the list of strings actually hashed for the trees in question (`hashedT`, `hashedAll`). -/
+
+open Aergo.TrieStore in
+/-- **(a) A fresh instance at the committed root answers as the committed tree.** Commit the batches of
+`t` into *any* store; then `Get` on a new trie opened at `rootOf t` returns `get t key` for every key —
+no error, no panic. The hash function only has to be good on the strings hashed for `t` itself. -/
+theorem get_from_store (c : HashCtx) (n : Nat) (ok : HashOK c (4 * n)) (t : T Bytes) (ct : Committed n t)
+    (g : HashGoodOn c.H (hashedT c (4 * n) [] t)) (σ0 : Store) (key : List Bool) (hk : key.length = 4 * n) :
+    getRoot c (commitS σ0 (pairsOf c n [] t)) (4 * n) (rootOf c (4 * n) t) key = .ok (get t key) :=
+  getRoot_covers ok ct (commit_covers ok ct g σ0) key hk
+
+open Aergo.TrieStore in
+/-- **(b) The store is content-addressed and grows monotonically**: committing one more tree `t'` leaves
+every existing pair as it is (a key written again is written with identical bytes), and whatever is new
+is a pair of `t'`. The hash function has to be good on the strings hashed for all the trees involved. -/
+theorem store_monotone (c : HashCtx) (n : Nat) (ok : HashOK c (4 * n)) (ts : List (T Bytes)) (t' : T Bytes)
+    (hc : ∀ t ∈ ts ++ [t'], Committed n t) (g : HashGoodOn c.H (hashedAll c n (ts ++ [t']))) (k : Bytes) :
+    (∀ v, storeAfter c n ts k = some v → storeAfter c n (ts ++ [t']) k = some v) ∧
+    (∀ v, storeAfter c n (ts ++ [t']) k = some v → storeAfter c n ts k = some v ∨ (k, v) ∈ pairsOf c n [] t') := by
+  rw [storeAfter_snoc]
+  constructor
+  · intro v h
+    apply commitS_preserve _ _ _ _ h
+    intro kv' hkv' e
+    -- the old pair belongs to one of the earlier trees
+    rcases foldl_commit_mem ts emptyStore k v h with h0 | ⟨t, m, hm⟩
+    · simp [emptyStore] at h0
+    · have ct := hc t (by simp [m])
+      have ct' := hc t' (by simp)
+      exact pair_unique ok g ct'.1 ct'.2 (by simp) ct.1 ct.2 (by simp) (hashedAll_mem (by simp))
+        (hashedAll_mem (by simp [m])) hkv' hm e
+  · intro v h
+    rcases commitS_cases (pairsOf c n [] t') (storeAfter c n ts) k with e | ⟨kv, mkv, ek, e⟩
+    · exact Or.inl (by rw [← e]; exact h)
+    · right
+      rw [e] at h
+      have : kv = (k, v) := by cases kv; simp_all
+      rw [← this]; exact mkv
+
+open Aergo.TrieStore in
+/-- **(c) Every previously committed root remains readable with its own contents**: after committing
+the trees `ts` one after the other, a fresh instance opened at the root of *any* of them answers as
+that tree, for every key. -/
+theorem old_roots_live (c : HashCtx) (n : Nat) (ok : HashOK c (4 * n)) (ts : List (T Bytes))
+    (hc : ∀ t ∈ ts, Committed n t) (g : HashGoodOn c.H (hashedAll c n ts))
+    (t : T Bytes) (m : t ∈ ts) (key : List Bool) (hk : key.length = 4 * n) :
+    getRoot c (storeAfter c n ts) (4 * n) (rootOf c (4 * n) t) key = .ok (get t key) :=
+  getRoot_covers ok (hc t m) (storeAfter_covers ok hc g m) key hk
+
+/-- The trees committed along a history (one `Update` + one `Commit` per batch, as the node does),
+starting with the empty trie. -/
+def committedTrees (H : Nat) (bs : List (List (KV V))) : List (T V) :=
+  (List.range (bs.length + 1)).map fun i => runTrie H (bs.take i)
+
+open Aergo.TrieStore in
+/-- **The clause for whole histories**: apply any legal sequence of batches (32-byte values), committing
+after each; afterwards a fresh instance opened at the root reached after the first `i` batches — for
+every `i` — reads every key as the map those `i` batches describe: the value last written, nothing if
+deleted or never written. -/
+theorem history_roots_stay_readable (c : HashCtx) (n : Nat) (ok : HashOK c (4 * n)) (bs : List (List (KV Bytes)))
+    (hl : Legal (4 * n) bs) (hv : ∀ b ∈ bs, ∀ kv ∈ b, ∀ v, kv.2 = some v → v.length = 32)
+    (g : HashGoodOn c.H (hashedAll c n (committedTrees (4 * n) bs)))
+    (i : Nat) (hi : i ≤ bs.length) (key : List Bool) (hk : key.length = 4 * n) :
+    getRoot c (storeAfter c n (committedTrees (4 * n) bs)) (4 * n) (rootOf c (4 * n) (runTrie (4 * n) (bs.take i))) key
+      = .ok (specMap (bs.take i) key) := by
+  have legal_take : ∀ j, Legal (4 * n) (bs.take j) := fun j b hb => hl b (List.mem_of_mem_take hb)
+  have committed : ∀ t ∈ committedTrees (4 * n) bs, Committed n t := by
+    intro t ht
+    simp only [committedTrees, List.mem_map, List.mem_range] at ht
+    obtain ⟨j, _, rfl⟩ := ht
+    have cn := reachable_canonical (4 * n) (bs.take j) (legal_take j)
+    refine ⟨cn, vals32_of_get _ _ cn fun k v hk' e => ?_⟩
+    rw [read_your_writes (4 * n) (bs.take j) (legal_take j) k hk'] at e
+    exact foldl_applyF_vals (fun v => v.length = 32) (bs.take j) (fun _ => none) (by simp)
+      (fun b hb => hv b (List.mem_of_mem_take hb)) k v e
+  have mem : runTrie (4 * n) (bs.take i) ∈ committedTrees (4 * n) bs := by
+    simp only [committedTrees, List.mem_map, List.mem_range]
+    exact ⟨i, by omega, rfl⟩
+  rw [old_roots_live c n ok _ committed g _ mem key hk, read_your_writes (4 * n) (bs.take i) (legal_take i) key hk]
+
+/-! Non-vacuity of the storage-layer hypotheses (a *test* on concrete values): a toy hash context with
+32-byte digests (a polynomial fingerprint; injectivity on the strings at hand is checked by evaluation),
+height 8 = two batch levels, two keys sharing their first four bits (so the tree has a chain of interior
+nodes down to the batch boundary at height 4, where a second batch holds the two shortcuts), then the
+second key's value overwritten: two committed trees, the hypothesis taken on the union of their strings. -/
+
+private def toyH (x : Bytes) : Bytes :=
+  let f := x.foldl (fun acc b => (acc * 257 + b.toNat + 1) % 115792089237316195423570985008687907853269984665640564039457584007913129639747) 1
+  (List.range 32).map fun i => UInt8.ofNat (f / 256 ^ i % 256)
+
+private def toyCtx : HashCtx := { H := toyH, enc := fun k => (k.map fun b => if b then 1 else 0) ++ List.replicate (32 - k.length) 0 }
+
+private def toyTree (v2 : UInt8) : T Bytes :=
+  .node (.node (.node (.node (.node (.leaf [false, false, true] (List.replicate 32 1)) (.leaf [true, false, true] (List.replicate 32 v2)))
+    .empty) .empty) .empty) .empty
+
+private theorem toy_map_inj : ∀ (k k' : List Bool),
+    (k.map fun b => if b then (1 : UInt8) else 0) = (k'.map fun b => if b then (1 : UInt8) else 0) → k = k' := by
+  intro k
+  induction k with
+  | nil => intro k' e; cases k' <;> simp_all
+  | cons a k ih =>
+    intro k' e
+    cases k' with
+    | nil => simp at e
+    | cons b k' =>
+      simp only [List.map_cons, List.cons.injEq] at e
+      rw [ih k' e.2]
+      cases a <;> cases b <;> simp_all
+
+private theorem toy_ok : HashOK toyCtx 8 where
+  outLen := fun x => by simp [toyCtx, toyH]
+  encLen := fun k hk => by simp [toyCtx, hk]
+  encInj := fun k k' hk hk' e => by
+    simp only [toyCtx, hk, hk'] at e
+    exact toy_map_inj k k' (List.append_inj e (by simp [hk, hk'])).1
+
+private theorem toy_committed (v : UInt8) : Aergo.TrieStore.Committed 2 (toyTree v) := by
+  refine ⟨?_, ?_⟩
+  · show Canon 8 _
+    simp [toyTree, Canon, small]
+  · simp [toyTree, Vals32]
+
+set_option maxRecDepth 1000000 in
+private theorem toy_good : Aergo.TrieStore.HashGoodOn toyCtx.H (Aergo.TrieStore.hashedAll toyCtx 2 [toyTree 2, toyTree 3]) :=
+  ⟨by decide, by decide⟩
+
+/-- test: the hypotheses of `old_roots_live` hold on the two toy trees; the older root is read back after the second commit -/
+example : Aergo.TrieStore.getRoot toyCtx (Aergo.TrieStore.storeAfter toyCtx 2 [toyTree 2, toyTree 3]) 8
+    (rootOf toyCtx 8 (toyTree 2)) [false, false, false, false, true, true, false, true] = .ok (some (List.replicate 32 2)) :=
+  old_roots_live toyCtx 2 toy_ok _ (by intro t ht; simp at ht; rcases ht with rfl | rfl <;> exact toy_committed _) toy_good
+    (toyTree 2) (by simp) _ rfl
 
 /-! Non-vacuity (tests on concrete values, not proofs of the general claims): a height-3 history
 with an insertion on both sides of a deleted shortcut — the shape that was broken before the
